@@ -91,6 +91,11 @@ func (p *c03) Gen(seed uint64, i int, tier string) (any, bool) {
 		batch = append(nb, batch[at:]...)
 	}
 	sc.Batches = [][]MsgSpec{batch}
+	if sc.Op == "dialandsend" && r.Chance(1, 6) {
+		// the caller's context ends while a message is on its way (the context governs the
+		// dial; what is being sent is sent completely or reported as failed)
+		sc.CancelMidContent = true
+	}
 	if sc.Op == "send" && r.Chance(1, 5) {
 		sc.Batches = append(sc.Batches, []MsgSpec{GenMsg(r, fmt.Sprintf("n0x%d", i%997), shape)})
 	}
